@@ -20,3 +20,4 @@ def run(ck):
     matrix.r13_narrowed_results_range_tested(ck, P)
     matrix.r14_negation_excludes_minimum(ck, P)
     matrix.r15_ceil_guarded(ck, P)
+    matrix.r16_elementary_updates_are_products(ck, P)
